@@ -124,10 +124,18 @@ def make_dist(rnd, mean_unit, n_units, family=None, safe=False):
 
 def _f(rnd, x):
     x = float(x)
-    forms = [repr(x), "%.6g" % x]
+    forms = [repr(x), "%.6g" % x, repr(x)]
     if x == int(x):
         forms += [str(int(x)), str(int(x)) + "."]
-    return rnd.choice(forms)
+    if x >= 10:
+        m, e = ("%.15e" % x).split("e")
+        forms.append(m.rstrip("0").rstrip(".") + "e" + str(int(e)))  # exponent form, value unchanged
+    if 0 < x < 1:
+        forms.append(repr(x).lstrip("0"))  # '.05'
+    s = rnd.choice(forms)
+    if rnd.random() < 0.15:
+        s = " " + s + " "
+    return s
 
 
 def _w(rnd, p=0.35):
